@@ -25,7 +25,7 @@ EXPLANATION = (
 ASSUMPTIONS = ["real arithmetic (rounding not modelled); degrees in [0,1]; the transcription of the documented formulas in HEDGES is faithful"]
 LEVEL_SCOPE = ("Decides the listed clauses for every order type (piece) over real arithmetic, reporting only definite disagreements; floating-point "
                "rounding and the clauses listed as undecided are not decided.")
-FLOORS = {"K1": 6, "F": 6, "X": 6, "R": 6, "M": 6, "O": 2, "I": 5, "V1": 6, "V8": 6}
+FLOORS = {"V10": 2, "K1": 6, "F": 6, "X": 6, "R": 6, "M": 6, "O": 2, "I": 5, "V1": 6, "V8": 6}
 
 HEDGES: dict[str, dict] = {
     "Any": {"cases": [(None, "1")], "fix": {0: 1, 1: 1}, "direction": 0},
@@ -61,6 +61,10 @@ def pieces(check: Check, operands: list[Term], terms: list[Term]):  # type: igno
 
 
 def run(check: Check) -> None:
+    from .common import numpy_pitfalls
+
+    if not numpy_pitfalls(check, "V10", {"fuzzylite/hedge.py"}):
+        return  # the kernels are not the elementwise expressions the interpreters assume
     from ..ordertype import describe, flatten, spec_term
 
     p = check.program
